@@ -153,7 +153,8 @@ __CPROVER_requires(CUR_OK(to_encode) && to_encode->ptr != NULL)
 __CPROVER_requires(BUF_OK(output) && output->allocator != NULL)
 REQ_WITNESS_HEX_IN(to_encode)
 REQ_WITNESS_BUF(output)
-__CPROVER_assigns(output->len, output->capacity, output->buffer)
+/* growth replaces the storage: the whole buffer object (incl. the struct) is in the frame; what must stay is stated below */
+__CPROVER_assigns(*output)
 __CPROVER_assigns(output->capacity > 0 : __CPROVER_object_whole(output->buffer))
 __CPROVER_frees(output->buffer)
 __CPROVER_ensures(RET == AWS_OP_SUCCESS || RET == AWS_OP_ERR)
@@ -295,5 +296,27 @@ __CPROVER_ensures(g_on && RET == AWS_OP_SUCCESS && g_blk < (to_decode->len >> 2)
 __CPROVER_ensures(g_on && RET == AWS_OP_SUCCESS && g_blk < (to_decode->len >> 2) && g_sub < 3 && 3 * g_blk + g_sub < output->len ==>
                   output->buffer[3 * g_blk + g_sub] == B64_DEC_BYTE(g_sub))
 ;
+
+/* ------------------------------------------------------------------ UTF-8 validator: ghost state and state predicate
+ * (the function contracts themselves are in contracts/encoding_utf8.h, which must come after source/encoding.c because
+ * struct aws_utf8_decoder is private to that file; the loop contract in overlay/encoding.loops needs these names) */
+/* ghost record of what the on_codepoint callback has seen */
+uint32_t g_cp_count;
+uint32_t g_cp_last;
+uint32_t g_cp_hash;
+/* ghost record of end-of-text checks (aws_utf8_decoder_finalize) */
+uint32_t g_fin_count;
+bool g_fin_ok;
+bool g_fin_track; /* switch: on only in units where aws_utf8_decoder_finalize is replaced by its contract */
+#define UTF8_HASH(h, cp) ((uint32_t)((h)*31u + (cp) + 1u))
+
+/* states the validator can be in between two bytes: idle, or 1..3 continuation bytes outstanding with the bits read
+ * so far */
+#define UTF8_STATE_OK(d)                                                                                               \
+    ((d)->remaining == 0 ||                                                                                            \
+     ((d)->min == 0x80 && (d)->remaining == 1 && (d)->codepoint < 0x20) ||                                             \
+     ((d)->min == 0x800 && (((d)->remaining == 2 && (d)->codepoint < 0x10) || ((d)->remaining == 1 && (d)->codepoint < 0x400))) || \
+     ((d)->min == 0x10000 && (((d)->remaining == 3 && (d)->codepoint < 0x8) || ((d)->remaining == 2 && (d)->codepoint < 0x200) ||  \
+                              ((d)->remaining == 1 && (d)->codepoint < 0x8000))))
 
 #endif
